@@ -640,4 +640,9 @@ def run(ctx: Ctx):
     from . import c07
     with ctx.delegated("C07/"):
         c07.run_for_detection(ctx)
+    # the matcher treats affinity > 0 as "the geometries overlap" and the match reports that affinity: the affinity must be the
+    # intersection-over-union of the (prepared) geometries -- 0 exactly when they do not overlap (C06's formula rules)
+    from . import c06
+    with ctx.delegated("C06/"):
+        c06.run_for_detection(ctx)
     return EXPLANATION, ASSUMPTIONS
